@@ -44,13 +44,13 @@ def run(tier):
             for data in ([], [0xFF], [0x00], [0xFE] * 3, [rng.randrange(256) for _ in range(rng.randrange(1, 12))], [0xFF, 1, 0xFF, 0xFF, 2]):
                 jobs.append(dict(op='deser', cls=cls, data=data, chunked=rng.random() < 0.3))
         entries.append(dict(name=t['name'], tree=t['tree'], jobs=jobs, want_sources=True))
-    f4 = dict(name='F4-shape', tree=f4_tree(), jobs=[dict(op='deser', cls='Holder', data=[2, 0xFF, 1], chunked=False),
+    f4 = dict(name='F4-shape', tree=f4_tree(), want_sources=True, jobs=[dict(op='deser', cls='Holder', data=[2, 0xFF, 1], chunked=False),
                                                      dict(op='deser', cls='Holder', data=[2, 3, 4, 5], chunked=False)])
-    f12 = dict(name='F12-shape', tree=f12_tree(), jobs=[dict(op='deser', cls='SplitLen', data=[2, 0xFF, 65, 66], chunked=False),
+    f12 = dict(name='F12-shape', tree=f12_tree(), want_sources=True, jobs=[dict(op='deser', cls='SplitLen', data=[2, 0xFF, 65, 66], chunked=False),
                                                        dict(op='deser', cls='SplitLen', data=[2, 3, 0xFF, 65, 66], chunked=False)])
     run_entries(C, runner, entries + [f4, f12])
-    recover_stream(C, entries, 'c03')
-    render_stream(C, entries, 'c03')
+    recover_stream(C, entries + [f4, f12], 'c03')
+    render_stream(C, entries + [f4, f12], 'c03')
     C.cov['tie']['generated deserialize methods (semantics)'] = ('way 1 for generated code: tools/py2stmt.py parses every generated deserialize method from the SOURCE TEXT (generic, fail-closed) into the statement language of Model/PyStmtR.v; '
                                                                 'Model/RenderCheckD.v decides per tree that the statements equal render_deserialize (elab tree); Properties/C03R.v proves that running them is Model/Deser.v '
                                                                 '(every reader state, result incl. byte_size, error kind, fuel) up to the whole call tree = deser_struct')
@@ -60,7 +60,7 @@ def run(tier):
     try:
         fn = os.path.join(CASES, 'c03p.v')
         os.makedirs(os.path.dirname(fn), exist_ok=True)
-        acc = [e for e in entries + [f4] if e['result'].get('accepted')]
+        acc = [e for e in entries + [f4, f12] if e['result'].get('accepted')]
         with open(fn, 'w') as f:
             f.write("From EO Require Import Prelude.Py Model.Spec Model.Elab Model.GenHarnessB Model.NonDegen.\nOpen Scope string_scope.\nOpen Scope list_scope.\n")
             for k, e in enumerate(acc):
@@ -88,7 +88,9 @@ def run(tier):
         d = e.get('domain')
         if d is None or (all(d[:3]) and not d[3]):
             C.broken.append(dict(kind='correspondence', stream='domain', msg=f"tree {e['name']}: tree_domain = {d}"))
-    C.cov['termination_theorem_applies'] = dict(classes=len(prog), covered_nonchunked=sum(1 for v in prog.values() if v[0]), covered_chunked=sum(1 for v in prog.values() if v[1]))
+    names = {id(e): e['name'] for e in acc} if 'acc' in dir() else {}
+    C.cov['termination_theorem_applies'] = dict(classes=len(prog), covered_nonchunked=sum(1 for v in prog.values() if v[0]), covered_chunked=sum(1 for v in prog.values() if v[1]),
+                                                not_covered=sorted(f"{names.get(k[0], '?')}:{k[1]} (non-chunked entry: {v[0]}, chunked entry: {v[1]})" for k, v in prog.items() if not (v[0] and v[1]))[:20])
     # ---- property oracle on the implementation: terminates, only the documented ValueError, position inside the data
     ndeser = nerr = ntrunc = 0
     kinds = {}
